@@ -89,6 +89,8 @@ class Translit:
             self.hit("scalar-cast-dropped", m.group(0)); return "("
         e = re.sub(r"\b(?:RealP|Real|P|E|double|float)\s*\((?=[^)])", cast, e)
         e = re.sub(r"static_cast<\s*(?:RealP|Real|P|double|float|T)\s*>\s*\(", cast, e)
+        if re.search(r"\(\s*T\s*\)", e):
+            self.hit("c-style-scalar-cast-dropped", e0); e = re.sub(r"\(\s*T\s*\)\s*", "", e)
         if re.search(r"\(\s*int\s*\)", e):
             self.hit("c-style-int-cast-dropped", e0); e = re.sub(r"\(\s*int\s*\)\s*", "", e)
         if "&&" in e or "||" in e:
@@ -323,6 +325,10 @@ class Translit:
             return ["return " + (self.expr(e) if e else "None")]
         if st in ("continue", "break"):
             return [st]
+        m = re.match(r"^SimTK_THROW\d*\s*\((.*)\)$", st)
+        if m:
+            self.hit("throw->python exception (ghost 'threw')", st)
+            return ["raise Thrown(%r)" % m.group(1)]
         m = re.match(r"^(?:\+\+\s*([\w.\[\]]+)|([\w.\[\]]+)\s*\+\+)$", st)
         if m:
             self.hit("increment->+=1", st)
